@@ -23,6 +23,7 @@ import (
 	"sort"
 	"strconv"
 	"strings"
+	"time"
 
 	"github.com/google/mtail/internal/exporter"
 	"github.com/google/mtail/internal/metrics"
@@ -208,22 +209,49 @@ func runCase(c *tcase) map[string]any {
 	paths := map[string]any{}
 
 	// /metrics
+	// a scrape that never comes back (a collector waiting for a lock it holds) is an exposition that reflects nothing:
+	// it is reported as this case's failure, and the process is given up (its locks are gone for good)
 	rec := httptest.NewRecorder()
-	promhttp.HandlerFor(reg, promhttp.HandlerOpts{}).ServeHTTP(rec, httptest.NewRequest("GET", "/metrics", nil))
 	failure := ""
-	if rec.Code != 200 {
+	if !within(10*time.Second, func() {
+		promhttp.HandlerFor(reg, promhttp.HandlerOpts{}).ServeHTTP(rec, httptest.NewRequest("GET", "/metrics", nil))
+	}) {
+		failure = "the /metrics scrape did not return within 10 s"
+		rec = httptest.NewRecorder()
+	} else if rec.Code != 200 {
 		failure = "status " + strconv.Itoa(rec.Code) + ": " + strings.TrimSpace(rec.Body.String())
 	}
 	paths["metrics"] = judge(failure, rec.Body.Bytes(), want, c.WantDev.Metrics)
+	if strings.HasPrefix(failure, "the /metrics scrape did not return") {
+		paths["write"] = paths["metrics"]
+		return map[string]any{"id": c.ID, "paths": paths, "nwant": len(want), "stalled": true}
+	}
 
 	// Exporter.Write
 	var buf bytes.Buffer
 	failure = ""
-	if err := e.Write(&buf); err != nil {
-		failure = "Write: " + err.Error()
+	var werr error
+	if !within(10*time.Second, func() { werr = e.Write(&buf) }) {
+		failure = "Exporter.Write did not return within 10 s"
+		paths["write"] = judge(failure, nil, want, c.WantDev.Write)
+		return map[string]any{"id": c.ID, "paths": paths, "nwant": len(want), "stalled": true}
+	}
+	if werr != nil {
+		failure = "Write: " + werr.Error()
 	}
 	paths["write"] = judge(failure, buf.Bytes(), want, c.WantDev.Write)
 	return map[string]any{"id": c.ID, "paths": paths, "nwant": len(want)}
+}
+
+func within(d time.Duration, f func()) bool {
+	done := make(chan struct{})
+	go func() { defer close(done); f() }()
+	select {
+	case <-done:
+		return true
+	case <-time.After(d):
+		return false
+	}
 }
 
 func main() {
